@@ -284,7 +284,9 @@ def reserved_tags(reg, o):
                 labels.add(lab)
                 if lab.startswith("_"):
                     tags.add("leading-underscore")
-                if not lab.isidentifier():
+                if not lab.isidentifier() and not cu and any(ord(c) > 127 for c in lab):
+                    # D25 is about NON-ASCII word characters that are not identifier characters, with transliteration off; an
+                    # ASCII label that is not an identifier (2x, a-b) is never the listed finding
                     tags.add("non-identifier-key-char")
             except IndexError:
                 tags.add("empty-label")
